@@ -131,6 +131,11 @@ func (k Keeper) Open(ctx sdk.Context, msg *types.MsgOpen) (*types.MsgOpenRespons
 			return nil, errorsmod.Wrap(types.ErrPoolDoesNotExist, fmt.Sprintf("poolId: %d", poolId))
 		}
 
+		// the amm pool balances have changed while opening the position
+		ammPool, err = k.GetAmmPool(ctx, poolId)
+		if err != nil {
+			return nil, err
+		}
 		err = k.hooks.AfterPerpetualPositionOpen(ctx, ammPool, pool, creator, params.EnableTakeProfitCustodyLiabilities)
 		if err != nil {
 			return nil, err
